@@ -332,6 +332,16 @@ var tampers = []tamper{
 	{"times-2-mod-N2", func(c, _, N2 *big.Int) *big.Int { v := new(big.Int).Lsh(c, 1); return v.Mod(v, N2) }},
 	{"other-session", func(_, o, _ *big.Int) *big.Int { return new(big.Int).Set(o) }},
 	{"zero", func(_, _, _ *big.Int) *big.Int { return big.NewInt(0) }},
+	// the same residue class modulo N^2, another integer on the wire
+	{"plus-N2", func(c, _, N2 *big.Int) *big.Int { return new(big.Int).Add(c, N2) }},
+	{"plus-2N2", func(c, _, N2 *big.Int) *big.Int { return new(big.Int).Add(c, new(big.Int).Lsh(N2, 1)) }},
+	{"negated-mod-N2", func(c, _, N2 *big.Int) *big.Int { return new(big.Int).Sub(N2, c) }},
+	{"inverse-mod-N2", func(c, _, N2 *big.Int) *big.Int {
+		if v := new(big.Int).ModInverse(c, N2); v != nil {
+			return v
+		}
+		return new(big.Int).Set(c)
+	}},
 }
 
 // tamperOne: which = "cA" (receiver Bob) or "cB" (receiver Alice).
